@@ -323,7 +323,7 @@ def check_property_file(cid):
     for i, nm in enumerate(printed):
         ax = []
         if i < len(blocks) and blocks[i].startswith("Axioms:"):
-            ax = re.findall(r"^([A-Za-z0-9_.']+)\s*:", blocks[i], re.M)
+            ax = [a for a in re.findall(r"^([A-Za-z0-9_.']+)\s*:", blocks[i], re.M) if a != "Axioms"]
         thms.append((nm, ax))
     missing = [n for n in names if n not in printed and not n.endswith("_nonvacuous") and not n.startswith("ex_")]
     log = ""
